@@ -48,7 +48,8 @@ def generate(rng, tier):
         t = gen_tree.gen_crate(rng, base="c%d" % i, max_files=rng.choice([1, 3, 6]), suffix=str(i),
                                root_name=rng.choice(["main%d.rs", "lib%d.rs", "src/main%d.rs", "src/lib%d.rs"]) % i,
                                feats=rng.choice([{"modrs", "path", "inline"}, {"modrs", "path", "inline"}, {"modrs"},
-                                                 {"modrs", "path", "cfg_attr_path"}, {"modrs", "cfg_if", "cfg_attr_path", "inline"}]))
+                                                 {"modrs", "path", "cfg_attr_path"}, {"modrs", "cfg_if", "cfg_attr_path", "inline"},
+                                                 {"modrs", "cfg_if", "cfg_match"}]))
         trees.append(t.to_json())
         files.update(t.files)
     order = rng.shuffle(list(range(nroots)))
